@@ -565,9 +565,37 @@ GTOD2_OP = "gids gnu C:60:0 D:g1=a:a=5 T Q:5.1 D:g2=a:a=5 G:2 T Q:5.1,5.2"
 
 
 def build_all(ctx):
-    h = cbuild.build(ctx, "h_gids", SRCS)
-    heb = cbuild.build(ctx, "h_gids_eb", SRCS, defines=["HAVE_GETGRENT_R_ERANGE_BROKEN=1"])
+    wrap = ["-Wl,--wrap=hash_find"]          # "L:0:..." scenarios park a lookup inside hash_find (see h_gids.c)
+    h = cbuild.build(ctx, "h_gids", SRCS, libs=wrap)
+    heb = cbuild.build(ctx, "h_gids_eb", SRCS, defines=["HAVE_GETGRENT_R_ERANGE_BROKEN=1"], libs=wrap)
     return h, heb
+
+
+def run_parked(ctx, h, n):
+    """Lookups on a second thread, parked inside hash_find while a complete refresh runs (a forced schedule; implementation only,
+    judged by the property oracle: the answers are the old map's or the new map's, and nothing touches a destroyed map)."""
+    g = Gen(ctx, getattr(ctx, "gids_consts", {}))
+    ops = []
+    for _ in range(n):
+        w = g.interleave().split()
+        w[1] = "gnu"
+        w = [x for x in w if not x.startswith("U:")]
+        w = [("L:0:" + x.split(":", 2)[2]) if x.startswith("L:") else x for x in w]
+        ops.append(" ".join(w))
+    rc, out, err = cbuild.run_lines([h], ops)
+    ctx.count(len(ops)); ctx.dist("parked_lookup_scenarios", len(ops))
+    bad = None
+    for o, l in zip(ops, out):
+        ctx.distinct(o)
+        why = Oracle()(o, l)
+        if why and bad is None:
+            bad = (o, l, why)
+    if bad is None and (rc != 0 or len(out) != len(ops)):
+        bad = (ops[len(out)] if len(out) < len(ops) else "(end)", err[-1500:], "harness ended abnormally")
+    ctx.obligation("oracle", "%d scenarios with a lookup parked inside hash_find across a whole refresh" % len(ops), bad is None, bad[2] if bad else "")
+    if bad:
+        ctx.violation("supplementary groups (lookup held across a refresh): " + bad[2], {"stream": "gids-parked", "ops": [bad[0]], "impl_output": bad[1][:2000]},
+                      found_input=True)
 
 
 def run_streams(ctx, ops, h, heb, drv, tag=""):
@@ -620,6 +648,7 @@ def run(ctx):
     for o in ops[:3] + ops[len(FIXED) + 5:len(FIXED) + 7]:
         ctx.sample(o[:400])
     run_streams(ctx, ops, h, heb, drv or "/bin/cat")
+    run_parked(ctx, h, 12 if ctx.tier == "quick" else 120)
     # a latent defect found while building this check (use-after-free / double free in _gids_map_create when the *second*
     # gettimeofday of a build fails): exercised only once it is recorded in known_findings.json or when asked for
     known = any(k.get("property") == "C17" and k.get("key") == GTOD2_KEY for k in ctx.known.get("findings", []))
